@@ -20,7 +20,7 @@ def option_sets(tier):
     if tier == 'quick':
         sets += [('compound', 'wide', 'indirect'), ('noper', 'nooer')]
     else:
-        sets += list(itertools.combinations(names, 2)) + [tuple(names)]
+        sets += list(itertools.combinations(names, 2)) + [('wide', 'compound', 'indirect'), tuple(names)]
     return sets
 
 
@@ -44,7 +44,10 @@ def run(args):
     samples = []
     distinct = set()
     for oset in sets:
-        cases = typegen.cases('quick' if (args.tier == 'quick' or len(oset) > 1) else 'thorough', fams)
+        # thorough: the full thorough shape corpus under no option and under the three options that change the emitted C most
+        # (taken together); the quick shape corpus under every single option, every pair and all options together
+        deep = args.tier != 'quick' and oset in ((), ('wide', 'compound', 'indirect'))
+        cases = typegen.cases('thorough' if deep else 'quick', fams)
         if args.tier == 'quick' and oset:
             cases = [c for c in cases if c.family != 'S1' or hash(c.label) % 3 == 0 or True]
         work = os.path.join(build.BUILD, 'c10-%d-%s' % (os.getpid(), '_'.join(oset) or 'none'))
